@@ -2,6 +2,7 @@
 registered for their code (else the supplied base class)."""
 from __future__ import annotations
 
+import abc
 import itertools
 import json
 
@@ -65,6 +66,25 @@ class C5Typed3(JsonRpcError):
     data = {'class-level': 'default'}
 
 
+class AbcErrorMeta(type(JsonRpcError), abc.ABCMeta):
+    """a metaclass derived from the library's error metaclass (here: to combine it with ABCMeta)"""
+
+
+class C5AbcTyped(JsonRpcError, metaclass=AbcErrorMeta):
+    code = 71004
+    message = 'c5 typed, own metaclass'
+
+
+class C5AfterAbc(JsonRpcError):
+    """an ordinary typed error declared AFTER a class with a derived metaclass exists"""
+    code = 71005
+    message = 'c5 typed five'
+
+
+class AbcBase(JsonRpcError, metaclass=AbcErrorMeta):
+    """a user-supplied base class (no code of its own) created through the derived metaclass"""
+
+
 class CustomBase(JsonRpcError):
     """a user-supplied base class (no code of its own)"""
 
@@ -77,10 +97,10 @@ REGISTERED = {
     -32700: pjrpc.exceptions.ParseError, -32600: pjrpc.exceptions.InvalidRequestError,
     -32601: pjrpc.exceptions.MethodNotFoundError, -32602: pjrpc.exceptions.InvalidParamsError,
     -32603: pjrpc.exceptions.InternalError, -32000: pjrpc.exceptions.ServerError,
-    71001: C5Typed1, 71002: C5Typed2, 71003: C5Typed3,
+    71001: C5Typed1, 71002: C5Typed2, 71003: C5Typed3, 71004: C5AbcTyped, 71005: C5AfterAbc,
 }
 UNREGISTERED = [0, 1, -1, 2, 42, -32099, -32001, 2 ** 40, -(2 ** 40), 4711, 32000]
-BASES = {'default': JsonRpcError, 'custom': CustomBase, 'other': OtherBase}
+BASES = {'default': JsonRpcError, 'custom': CustomBase, 'other': OtherBase, 'abc-meta': AbcBase}
 IDS = [0, 1, -1, 7, 2 ** 64, -(2 ** 63), '', '1', 'a', 'é', '\U0001F600', None]
 
 
@@ -517,12 +537,12 @@ def gen(ctx):
     # errors: alone, in responses, batch-level; every base in both orders (default first, then custom, then default again)
     specs = list(error_specs(rng, full))
     for spec in specs:
-        for base in ('default', 'custom', 'other', 'default'):
+        for base in ('default', 'custom', 'other', 'abc-meta', 'default'):
             yield 'error', {'error': spec, 'base': base}
-        for base in ('custom', 'default', 'other'):
+        for base in ('custom', 'default', 'other', 'abc-meta'):
             yield 'response', {'id': rng.choice(IDS), 'result': None, 'error': spec, 'base': base}
         if rng.random() < (1.0 if full else 0.3):
-            for base in ('other', 'custom', 'default'):
+            for base in ('other', 'custom', 'abc-meta', 'default'):
                 yield 'batch_level', {'error': spec, 'base': base}
     for _ in range(n // 2):
         spec = [rng.choice(list(REGISTERED) + UNREGISTERED), rng.choice(['', 'm', 'msg']),
